@@ -48,6 +48,7 @@ type Spec struct {
 	Faults   []*Fault          `json:"faults,omitempty"`
 	CrashAt  int               `json:"crash_at,omitempty"` // stop at the n-th mutating op (process crash); 0 = never
 	CrashTear string           `json:"crash_tear,omitempty"` // "", "short", "zerotail": state of the write in flight at the crash
+	Mtimes   map[string]int64  `json:"mtimes,omitempty"`   // modification times of initial files, in seconds relative to the start of the run (negative: older)
 	Trace    []string          `json:"trace,omitempty"`    // explicit schedule to follow (replay)
 	FullOps  bool              `json:"full_ops,omitempty"`
 	NoTree   bool              `json:"no_tree,omitempty"`
@@ -253,6 +254,11 @@ func Run(spec *Spec, mainFn func()) *Result {
 	}
 	TheFS.MkdirAllRaw(spec.Cwd)
 	TheFS.Cwd = spec.Cwd
+	for p, off := range spec.Mtimes {
+		if n, er := TheFS.lookup(p, false, 0); er == 0 {
+			n.Mtime = now().Add(time.Duration(off) * time.Second)
+		}
+	}
 	Faults = spec.Faults
 	steps := expandEdits(spec.Edits)
 	nextEdit := 0
